@@ -184,8 +184,12 @@ def body(ctx):
         ncolumns = rng.randint(1, 5)
         colnames = []
         while len(colnames) < ncolumns:
-            cn = "".join(rng.choice(string.ascii_letters + string.digits + " -_") for _ in range(rng.randint(1, 8))).strip()
-            if cn and cn not in colnames and not cn[0].isdigit():
+            if rng.random() < 0.2:
+                # names made of digits only (years, station numbers, with leading zeros) must stay text
+                cn = rng.choice(["2019", "2020", "7", "007", "10", "1_2", "3-4", "42 a"])
+            else:
+                cn = "".join(rng.choice(string.ascii_letters + string.digits + " -_") for _ in range(rng.randint(1, 8))).strip()
+            if cn and cn not in colnames:
                 colnames.append(cn)
         for cn in colnames:
             kind = rng.choice(["float", "int", "text"])
@@ -256,6 +260,31 @@ def body(ctx):
                 ctx.finding("e2e/comment_not_returned", "a supplied header comment does not come back unchanged", {**case, "key": k, "got": c2.get(k)})
         if c2.get("nrow") != str(nrow) or c2.get("ncol") != str(len(colnames)):
             ctx.finding("e2e/nrow_ncol", "recorded nrow/ncol are not returned", {**case, "got": [c2.get("nrow"), c2.get("ncol")]})
+
+    # ---------------- (5) archives holding several members, some names being suffixes of others
+    for it in range(ctx.scale(40, 400)):
+        shutil.rmtree(e2e, ignore_errors=True)
+        e2e.mkdir()
+        base = rng.choice(["sim.csv", "obs.csv", "m.csv"])
+        pool = [base, "run1/" + base, "calib/run1/" + base, "1/" + base, "11/" + base, "all/sub/" + base, "sub/" + base, "x" + base]
+        members = rng.sample(pool, rng.randint(2, 4))
+        frames = {}
+        try:
+            with zipfile.ZipFile(e2e / "arc.zip", "w") as arc:
+                for k, mname in enumerate(members):
+                    dfk = pd.DataFrame({"a" + str(k): [float(k + 1) * (i + 1) for i in range(k + 2)], "t": ["v%d_%d" % (k, i) for i in range(k + 2)]})
+                    frames[mname] = dfk
+                    csv.write_csv(dfk, mname, {"member": "m%d" % k}, src, archive=arc, write_sys_info=False)
+            with zipfile.ZipFile(e2e / "arc.zip", "r") as arc:
+                for k, mname in enumerate(members):
+                    d2, c2 = csv.read_csv(mname, archive=arc)
+                    ctx.count(("arc", tuple(members), mname), True, "e2e/archive_multi")
+                    if list(d2.columns) != list(frames[mname].columns) or len(d2) != len(frames[mname]) or c2.get("member") != "m%d" % k:
+                        ctx.finding("e2e/archive/wrong_member_read", "reading one member of an archive returns another member's table",
+                                    {"members": members, "read": mname, "got_columns": [str(c) for c in d2.columns], "got_comment": c2.get("member")})
+        except Exception as e:  # noqa
+            ctx.finding("e2e/archive_multi/cannot_read_back", "a member written into an archive cannot be read back",
+                        {"members": members, "error": f"{type(e).__name__}: {e}"[:300]})
 
     # ---------------- correspondence
     replies = lean.ask(reqs)
